@@ -66,8 +66,15 @@ TSetSize == /\ IsEvent("setsize") /\ Stamp("setsize") /\ Keep
                \/ NoSpace /\ Tainted
                \/ Refused /\ Unchanged
             /\ Seen
+\* Documented behaviour of the library for inline data (punch.c: "we will remove all inline data in ext2fs_punch()";
+\* lib/ext2fs tst_inline_data expects it): punching block 0 of an inline-data file empties the file, i_size becomes 0.
+\* The property text does not forbid it (a read still returns exactly size bytes), so it is part of the model.
 TPunch == /\ IsEvent("punch") /\ Stamp("punch") /\ Keep
-          /\ \/ /\ Ok /\ A < B
+          /\ \/ /\ Ok /\ A < B /\ Tr[l].inl[F + 1] = 1 /\ A = 0
+                /\ cell' = [cell EXCEPT ![F] = [i \in Cells |-> Hole]]
+                /\ size' = [size EXCEPT ![F] = 0]
+                /\ UNCHANGED <<res, taint>>
+             \/ /\ Ok /\ A < B /\ ~(Tr[l].inl[F + 1] = 1 /\ A = 0)
                 /\ cell' = [cell EXCEPT ![F] = PunchCells(@, A, B)]
                 /\ UNCHANGED <<size, res, taint>>
                 /\ Unmapped(F, A, B)
